@@ -107,6 +107,8 @@ def build(d):
         return build_schema(d["cls"], d["props"])
     if k == "optional":
         return optional(build(d["key"]))
+    if k == "custom":
+        return make_custom(build(d["inner"]))
     if k == "props":
         import d42.declaration.types as TY
         cls = getattr(TY, d["cls"], None)
@@ -1002,7 +1004,71 @@ def oracle_C15(inp, meta=None):
     raise Unreachable("no C15 oracle for these inputs")
 
 
-ORACLES.update({"C14": oracle_C14, "C13": oracle_C13, "C15": oracle_C15})
+_custom_cache = {}
+
+
+def make_custom(inner):
+    """a user-defined CustomSchema that forwards its four hooks to `inner` (the C16 assumption)"""
+    from d42.custom_type import CustomSchema, Props
+
+    class FwdProps(Props):
+        pass
+
+    class Forwarding(CustomSchema[FwdProps]):
+        _inner = inner
+
+        def __represent__(self, visitor, *, indent: int = 0, **kwargs):
+            return self._inner.__accept__(visitor, indent=indent, **kwargs)
+
+        def __generate__(self, visitor, **kwargs):
+            return self._inner.__accept__(visitor, **kwargs)
+
+        def __validate__(self, visitor, *, value=Nil, path=Nil, **kwargs):
+            return self._inner.__accept__(visitor, value=value, path=path, **kwargs)
+
+        def __substitute__(self, visitor, *, value=Nil, **kwargs):
+            return self._inner.__accept__(visitor, value=value, **kwargs)
+
+    return Forwarding()
+
+
+def oracle_C16(inp, meta=None):
+    """`T[custom(inner)]` is indistinguishable from `T[inner]` for a few embeddings T"""
+    from d42.substitution.errors import SubstitutionError
+    inners = []
+    for key in ("self", "schema"):
+        if key in inp and inp[key].get("k") == "custom":
+            try:
+                inners.append(build(inp[key]["inner"]))
+            except Unreachable:
+                pass
+    inners += [schema.int.min(0), schema.dict({"x": schema.int, optional("y"): schema.str}),
+               schema.list([schema.int, schema.str]), schema.any(schema.none, schema.str.len(2))]
+    embeds = [("top", lambda s: s), ("dict value", lambda s: schema.dict({"k": s})),
+              ("list element", lambda s: schema.list([s, schema.int])), ("typed list", lambda s: schema.list(s)),
+              ("nested", lambda s: schema.dict({"a": schema.list([schema.dict({"b": s})])}))]
+    for inner in inners:
+        cust = make_custom(inner)
+        for ename, E in embeds:
+            A, B = E(inner), E(cust)
+            if repr(A) != repr(B):
+                return True, f"printed form differs ({ename}): {A!r} vs {B!r}"
+            vals = [g for _, g in _samples(A)[:4] if not isinstance(g, Exception)] + [None, {"k": 1}, [1], {"a": [{"b": None}]}]
+            for v in vals:
+                ea = [repr(e) for e in validate(A, v).get_errors()]
+                eb = [repr(e) for e in validate(B, v).get_errors()]
+                if ea != eb:
+                    return True, f"validation differs ({ename}) on {v!r}: {ea} vs {eb}"
+                ra, rb = _substitute(A, v), _substitute(B, v)
+                if ra[0] != rb[0] or (ra[0] == "ok" and repr(ra[1]) != repr(rb[1])):
+                    return True, f"substitution differs ({ename}) on {v!r}: {ra} vs {rb}"
+            for name, g in _samples(B)[:4]:
+                if isinstance(g, Exception) or validate(A, g).has_errors():
+                    return True, f"generation through the custom type ({ename}) gives {g!r} [{name}]"
+    return False, "custom type is indistinguishable from its inner schema"
+
+
+ORACLES.update({"C14": oracle_C14, "C13": oracle_C13, "C15": oracle_C15, "C16": oracle_C16})
 ORACLES.update({"C10": oracle_C10, "C11": oracle_C11, "C01": oracle_C01, "C04": oracle_C04,
                 "C05": oracle_C05, "C12": oracle_C12})
 
